@@ -73,8 +73,11 @@ def extract(repo):
         'fingerprints': common.fingerprints(repo, {
             'aiorpcx/session.py': ['RPCSession._throttled_request', 'SessionBase.process_messages',
                                    'SessionBase._process_messages', 'SessionBase._bump_errors',
-                                   'RPCSession._process_messages_loop'],
-            'aiorpcx/jsonrpc.py': ['JSONRPC.encode_payload', 'JSONRPCConnection._send_result']}),
+                                   'RPCSession._process_messages_loop', 'SessionBase.bump_cost',
+                                   'SessionBase._send_message', 'Concurrency.__aenter__',
+                                   'Concurrency._retarget_semaphore'],
+            'aiorpcx/jsonrpc.py': ['JSONRPC.encode_payload', 'JSONRPCConnection._send_result',
+                                   'JSONRPCConnection._receive_request_batch']}),
     }
 
 
